@@ -393,7 +393,14 @@ func (w *World) Step(no int, st Step, b *Behaviour) error {
 		}
 		w.sessCtr["op/"+st.C]++
 		base := (int(st.C[1]-'0'))*100 + w.sessCtr["op/"+st.C]
+		cont := opContainer(st.Op.K)
+		pre, preok := APIView(rep.D, cont)
 		res := ApplyOp(rep.D, *st.Op, base, optStr(st.Opt, "fail"))
+		post, postok := APIView(rep.D, cont)
+		dv, dvok := DocView(rep.D, cont)
+		if preok && postok && dvok && cont != "" {
+			ev["sem"] = map[string]any{"t": cont, "pre": pre, "post": post, "doc": dv}
+		}
 		ev["ev"] = "Edit"
 		ev["op"] = map[string]any{"k": st.Op.K, "a": st.Op.A, "b": st.Op.B, "v": st.Op.V}
 		ev["outcome"], ev["args"] = res.Outcome, res.Args
